@@ -99,25 +99,28 @@ def tsUpdate (o : Opts) (st : Stream) (srcTs : UInt32) : Stream × Bool :=
 
 /-! ### `RtpHeader::set_extension(id, data)` on a one-byte-header block -/
 
-/-- the copy loop: re-emit every element, replacing the one with id `id` -/
-def setExtLoop (id : Nat) (hdr : UInt8) (data : Bytes) : Nat → Bytes → Bool → Bytes × Bool
-  | 0, _, found => ([], found)
-  | _, [], found => ([], found)
+/-- the copy loop: re-emit every element, replacing the one with id `id`.  `none` = the `Err` the code
+returns when an element that is NOT the target runs past the end of the block (the target element
+is skipped by its declared length without being read). -/
+def setExtLoop (id : Nat) (hdr : UInt8) (data : Bytes) : Nat → Bytes → Bool → Option (Bytes × Bool)
+  | 0, _, found => some ([], found)
+  | _, [], found => some ([], found)
   | fuel + 1, b :: rest, found =>
     if b = 0 then setExtLoop id hdr data fuel rest found
     else
       let eid := b.toNat / 16
       let len := b.toNat % 16 + 1
-      if eid = 15 then ([], found)
-      else
-        let (tl, f) := setExtLoop id hdr data fuel (rest.drop len) (found || eid = id)
-        if eid = id then (hdr :: data ++ tl, f) else (b :: rest.take len ++ tl, f)
+      if eid = 15 then some ([], found)
+      else if eid = id then
+        (setExtLoop id hdr data fuel (rest.drop len) true).map (fun r => (hdr :: data ++ r.1, r.2))
+      else if len > rest.length then none
+      else (setExtLoop id hdr data fuel (rest.drop len) found).map (fun r => (b :: rest.take len ++ r.1, r.2))
 
 def padTo4 (b : Bytes) : Bytes := b ++ List.replicate ((4 - b.length % 4) % 4) 0
 
-/-- `set_extension`; `none` = `Err` (header unchanged).  A malformed existing block (element running
-past the end) makes the Rust slice panic; the model copies what is there — such packets are outside
-what the bridge harness generates (C07 covers that panic). -/
+/-- `set_extension`; `none` = `Err` (header unchanged): invalid id, invalid data length, a block of
+another profile, or a malformed existing one-byte block (element overrunning the block — rejected
+since the `fix:` commit e949e69, it used to panic). -/
 def setExtension (ext : Option Ext) (id : UInt8) (data : Bytes) : Option Ext :=
   if id = 0 ∨ id.toNat ≥ 15 then none
   else if data.length > 16 ∨ data.isEmpty then none
@@ -126,9 +129,10 @@ def setExtension (ext : Option Ext) (id : UInt8) (data : Bytes) : Option Ext :=
     if e.profile ≠ 0xBEDE then none
     else
       let hdr : UInt8 := UInt8.ofNat (id.toNat * 16 + (data.length - 1))
-      let (body, found) := setExtLoop id.toNat hdr data (e.data.length + 1) e.data false
-      let body := if found then body else body ++ (hdr :: data)
-      some { profile := 0xBEDE, data := padTo4 body }
+      match setExtLoop id.toNat hdr data (e.data.length + 1) e.data false with
+      | none => none
+      | some (body, found) =>
+        some { profile := 0xBEDE, data := padTo4 (if found then body else body ++ (hdr :: data)) }
 
 /-- the MID-stamping tail of `rewrite_packet` -/
 def stampMid (o : Opts) (rule : Option Rule) (ext : Option Ext) : Option Ext :=
@@ -198,6 +202,39 @@ def InOrder (st : Stream) (p : Pkt) : Prop :=
   | none => True
   | some last => p.ts - last < halfRange
 
+/-! ### the legacy single-parameter API (`RtpRewriteBridgeParams`, `RtpRewriteRule::{catch_all, dtmf,
+from_params}`, `bridge_rewrite_to`) -/
+
+structure Params where
+  ssrcOffset   : UInt32
+  fixedOutSsrc : Option UInt32
+  payloadType  : Option UInt8
+  dtmf         : Option (UInt8 × UInt8)
+  initSeq      : Option UInt16
+  initTsOff    : Option UInt32
+  strip        : Bool
+deriving DecidableEq, Repr
+
+/-- `RtpRewriteRule::catch_all` -/
+def Rule.catchAll (p : Params) : Rule :=
+  { matchPt := none, fixedOutSsrc := p.fixedOutSsrc, ssrcOffset := p.ssrcOffset, outPt := p.payloadType,
+    midExtId := none, mid := none }
+
+/-- `RtpRewriteRule::dtmf` -/
+def Rule.dtmf (src dst : UInt8) (p : Params) : Rule :=
+  { matchPt := some src, fixedOutSsrc := p.fixedOutSsrc, ssrcOffset := p.ssrcOffset, outPt := some dst,
+    midExtId := none, mid := none }
+
+/-- `RtpRewriteRule::from_params` -/
+def fromParams (p : Params) : List Rule :=
+  Rule.catchAll p :: (match p.dtmf with | some (s, d) => [Rule.dtmf s d p] | none => [])
+
+/-- `bridge_rewrite_to(dst, params)`: one destination, no video target, no pinned first timestamp -/
+def cfgOfParams (p : Params) : Cfg :=
+  { rules := fromParams p,
+    opts := { strip := p.strip, initSeq := p.initSeq, initTsOff := p.initTsOff, initOutTs := none },
+    videoPts := [], hasVideo := false }
+
 /-- an arriving packet with its two random draws -/
 abbrev In := Pkt × UInt16 × UInt32
 
@@ -207,6 +244,15 @@ def outsOf (c : Cfg) (s : UInt32) : Streams → List In → List (Pkt × Out)
   | _, [] => []
   | ss, (p, a, b) :: rest =>
     (if p.ssrc = s then [(p, (forward c ss p a b).2)] else []) ++ outsOf c s (forward c ss p a b).1 rest
+
+/-- what actually reaches the target's socket.  `try_bridge_rewrite_rtp` rewrites FIRST (the sequence
+number is consumed, the stream state advances) and only then may refuse the push — target mandatory
+without keys, `protect_rtp` error, socket buffer full.  `sent = false` marks such a packet. -/
+def wireOf (c : Cfg) (s : UInt32) : Streams → List (In × Bool) → List (Pkt × Out)
+  | _, [] => []
+  | ss, ((p, a, b), sent) :: rest =>
+    (if p.ssrc = s ∧ sent = true then [(p, (forward c ss p a b).2)] else []) ++
+      wireOf c s (forward c ss p a b).1 rest
 
 /-- `xs` counts up by one from `x` (wrapping `u16` arithmetic) -/
 def consecFrom (x : UInt16) : List UInt16 → Prop
